@@ -1,7 +1,7 @@
 (* C20 — effective configuration = defaults overlaid by the user's file.
    Property statements only: each theorem is closed by [exact <lemma>] and followed by
    Print Assumptions.  Model: Model/Config.v; proofs: Proofs/ConfigProofs.v,
-   Proofs/ConfigFirstRun.v, Proofs/ConfigIO.v.
+   Proofs/ConfigFirstRun.v, Proofs/ConfigFirstRunSyn.v, Proofs/ConfigIO.v.
 
    Tables are association lists in dict iteration order; [NoDup (keys b)] / [wf (Tab b)] say
    that no table of the user's document has a key twice (TOML forbids it, a Python dict
